@@ -36,9 +36,11 @@ struct Model
   int ga = 0; // gA data directory in the environment: 0 none, 1 truncated table, 2 valid (environment, not generator state: reset keeps it)
   int ga_failed = 0; // history marker, not observable state: bit k set once a gA initialisation failed on data kind k (kept across reset), so
                      // that the breadth-first search extends each of these histories instead of merging them into one model state
+  int hist = 0; // history marker like ga_failed: bit 0 a gA initialisation succeeded earlier, bit 1 a non-gA one did, bit 2 a reset followed
+                // an initialisation (kept across reset; never compared with the implementation)
   std::string key() const
   {
-    return fmt("%d|%d|%s|%d|%d|%d%d|%g|%g|%d|%d|%d|%d", init, cat, iso.c_str(), level, mode, has_min, has_max, emin, emax, nops, evcount, version_set, ga * 8 + ga_failed);
+    return fmt("%d|%d|%s|%d|%d|%d%d|%g|%g|%d|%d|%d|%d|%d", init, cat, iso.c_str(), level, mode, has_min, has_max, emin, emax, nops, evcount, version_set, ga * 8 + ga_failed, hist);
   }
 };
 
@@ -92,6 +94,7 @@ static bool throws(F f)
 }
 
 static std::string g_ga_dir[3]; // none / truncated / valid
+static bool g_track_history = false; // gA alphabet: keep histories apart in the search (see Model::hist)
 
 static std::vector<Op> alphabet(bool with_expensive, int which)
 {
@@ -160,6 +163,7 @@ static std::vector<Op> alphabet(bool with_expensive, int which)
                      return true;
                    }
                    m.init = true;
+                   if (g_track_history) m.hist |= (m.mode >= 21 ? 1 : 2);
                    return false;
                  }});
   ops.push_back({"shoot", [](decay0_generator & G, Tape & t, bxdecay0::event & e) { return throws([&] { G.shoot(t, e); }); },
@@ -170,10 +174,12 @@ static std::vector<Op> alphabet(bool with_expensive, int which)
                  }});
   ops.push_back({"reset", [](decay0_generator & G, Tape &, bxdecay0::event &) { return throws([&] { G.reset(); }); },
                  [](Model & m) {
-                   int ga = m.ga, gf = m.ga_failed;
+                   int ga = m.ga, gf = m.ga_failed, h = m.hist;
+                   if (m.init && g_track_history) h |= 4;
                    m = Model();
                    m.ga = ga;
                    m.ga_failed = gf;
+                   m.hist = h;
                    return false;
                  }});
   if (which == 1) {
@@ -239,6 +245,7 @@ int main(int argc, char ** argv)
   const int pshard = argc > 4 ? atoi(argv[4]) : 0, pshards = argc > 5 ? atoi(argv[5]) : 1;
   long probes = 0;
   const int which = argc > 6 ? atoi(argv[6]) : 0;
+  g_track_history = (which == 1);
   if (which == 1 && argc > 8) {
     g_ga_dir[0] = "/nonexistent/bxdecay0-gA-data";
     g_ga_dir[1] = argv[7];
@@ -294,6 +301,7 @@ int main(int argc, char ** argv)
           m = before;
           m.version_set = keep.version_set;
           m.ga_failed = keep.ga_failed;
+          m.hist = keep.hist;
         }
         bool it = ops[s[k]].impl(*G, t, ev);
         calls++;
